@@ -19,7 +19,7 @@ EXTENDS ExprSem, TLC, Json
 
 CONSTANTS MaxLen, LeafNames, OpNames
 
-VARIABLES stack, qstack, flags, fdim, prog
+VARIABLES stack, qstack, flags, fdim, ao, prog
 \* flags : sequence parallel to stack of [s, q, e, lf]:
 \*           s  - the sub-expression contains a symbol (value known only under the assignment)
 \*           q  - it contains a quantity leaf
@@ -28,14 +28,18 @@ VARIABLES stack, qstack, flags, fdim, prog
 \*                "zero, infinite and NaN terms excepted" is only decided for those
 \*           lf - it is a leaf
 \* fdim  : TRUE once some function node received a dimensional (non-any) argument
-vars == <<stack, qstack, flags, fdim, prog>>
+\* ao    : TRUE once a power had an exponent whose dimension is a pure ANGLE: the statement does not say whether
+\*         that exponent "is dimensional" (C01 counts angles as dimensionless, the collectors do not), so the
+\*         verdict of inference is left open there; what the statement does fix is its last sentence: IF
+\*         inference succeeds, construction on quantities must succeed too (checked by the harness)
+vars == <<stack, qstack, flags, fdim, ao, prog>>
 
 Speed == LMT(ROne, RZero, R(-1), RZero)
 Accel == LMT(ROne, RZero, R(-2), RZero)
 
 \* value, symbolic?, quantity?
 Leaf(val, sym) == [val |-> val, sym |-> sym]
-QuantityLeaves == {"m", "km", "s", "kg", "q2m", "q0", "q0m", "qoos", "q2"}
+QuantityLeaves == {"m", "km", "s", "kg", "q2m", "q0", "q0m", "qoos", "q2", "qang"}
 LeafDef == [
   n0    |-> Leaf(Zero, FALSE),
   n1    |-> Leaf(Fin(R(1), D1), FALSE),
@@ -59,6 +63,8 @@ LeafDef == [
   ys    |-> Leaf(Fin(R(5), L1), TRUE),            \* Symbol("y", length)
   ts    |-> Leaf(Fin(R(7), T1), TRUE),            \* Symbol("t", time)
   ks    |-> Leaf(Fin(R(2), D1), TRUE),            \* Symbol("k", dimensionless)
+  phis  |-> Leaf(Fin(R(2), Angle), TRUE),         \* Symbol("phi", angle_type)
+  qang  |-> Leaf(Fin(R(2), Angle), FALSE),        \* Quantity(2, dimension=angle_type)
   ps    |-> Leaf(Fin(R(4), D1), TRUE),            \* plain sympy Symbol("p") (no declared dimension)
   ft    |-> Leaf(Fin(R(11), L1), TRUE),           \* Function("f", [t], length) applied to t
   dft   |-> Leaf(Fin(R(13), Speed), TRUE),        \* Derivative(f(t), t)          : length / time
@@ -107,12 +113,15 @@ Sem(o, xs, infer) ==
     [] o = "exp"  -> IF infer THEN InferFunc(xs[1]) ELSE FuncSem(xs[1])
     [] o = "gapp" -> IF xs[1].c = "err" THEN Err ELSE Fin(R(17), Energy)
 
+\* an exponent that is a non-zero finite value of pure angle dimension
+AngleExponent(e) == e.c = "fin" /\ HasAngle(e) /\ DimlessUpToAngle(e.d)
+
 Defined(o, xs) ==
   CASE o = "mul2" -> Mul2Defined(xs[1], xs[2])
     [] o = "mul3" -> /\ Mul2Defined(xs[1], xs[2]) /\ Mul2Defined(Mul2(xs[1], xs[2]), xs[3])
                      /\ Mul2Defined(xs[2], xs[3]) /\ Mul2Defined(xs[1], Mul2(xs[2], xs[3]))
     [] o \in {"add2", "add3"} -> AddDefined(xs)
-    [] o = "pow"  -> PowDefined(xs[1], xs[2])
+    [] o = "pow"  -> PowDefined(xs[1], xs[2]) \/ (AngleExponent(xs[2]) /\ xs[1].c \in {"fin", "err"})
     [] o = "abs"  -> TRUE
     [] o \in {"min2", "max2"} -> MinMaxDefined(xs[1], xs[2])
     [] o = "exp"  -> ~HasAngle(xs[1]) /\ xs[1].c # "irr"
@@ -150,10 +159,9 @@ EvidentOK(o, xs, fl) ==
   /\ (o \in {"min2", "max2"} => \A i, j \in DOMAIN xs :
         ~(fl[i].q /\ ~fl[i].s /\ ~fl[j].q /\ ~fl[j].s /\ xs[i].c \in {"fin", "zero"} /\ xs[j].c \in {"fin", "zero"}
           /\ RSign(xs[i].v) # RSign(xs[j].v)))
-  \* a refused sub-expression times a literal zero (or to the power zero) evaluates to a plain number for SymPy,
-  \* so the enclosing node never looks inside; a symbolic factor times its own inverse likewise
-  /\ (o \in {"mul2", "mul3"} => ~((\E i \in DOMAIN xs : xs[i].c = "err") /\ (\E j \in DOMAIN xs : xs[j].c = "zero")))
-  /\ (o = "pow" => ~(xs[1].c = "err" /\ xs[2].c = "zero"))
+  \* a refused sub-expression times a LITERAL zero (or to the power zero) evaluates to a plain number for SymPy, so an
+  \* ENCLOSING node never looks inside (flag nz); a symbolic factor times its own inverse likewise
+  /\ (\A i \in DOMAIN xs : ~(xs[i].c = "err" /\ fl[i].nz))
   /\ (o = "mul2" => ~(fl[1].s /\ fl[2].s /\ xs[1].c = "fin" /\ xs[2].c = "fin" /\ RMul(xs[1].v, xs[2].v) = ROne))
   /\ (o = "pow" => /\ (IsAny(xs[2]) => fl[2].e)
                    /\ (IsAny(xs[1]) => ~fl[2].q)          \* 0 ** quantity, nan ** quantity: SymPy itself collapses it
@@ -161,20 +169,26 @@ EvidentOK(o, xs, fl) ==
                    /\ (fl[2].q => (fl[2].lf /\ ~IsAny(xs[2])) \/ PowRefused(xs[1], xs[2])))
 
 ResultFlags(o, xs, fl, res) ==
-  [s  |-> \E i \in DOMAIN fl : fl[i].s,
+  [s  |-> (o = "gapp") \/ (\E i \in DOMAIN fl : fl[i].s),
    q  |-> \E i \in DOMAIN fl : fl[i].q,
    e  |-> ~IsAny(res),      \* only literal leaves are evidently zero / infinite / NaN
-   lf |-> FALSE]
+   lf |-> FALSE,
+   \* nz: SymPy can evaluate the node to a plain number although it contains a refused sub-expression
+   \*     (a literal zero factor, a literal zero exponent): an ENCLOSING node then treats it as a number and
+   \*     never looks inside
+   nz |-> \/ (o \in {"mul2", "mul3"} /\ \E i \in DOMAIN xs : xs[i].c = "zero" /\ ~fl[i].q /\ ~fl[i].s)
+          \/ (o = "pow" /\ xs[2].c = "zero" /\ ~fl[2].q /\ ~fl[2].s)
+          \/ (\A i \in DOMAIN fl : fl[i].nz \/ (~fl[i].q /\ ~fl[i].s))]
 
-Init == stack = <<>> /\ qstack = <<>> /\ flags = <<>> /\ fdim = FALSE /\ prog = <<>>
+Init == stack = <<>> /\ qstack = <<>> /\ flags = <<>> /\ fdim = FALSE /\ ao = FALSE /\ prog = <<>>
 
 Push(l) ==
   /\ Len(prog) + 1 + Len(stack) <= MaxLen
   /\ stack'  = Append(stack, LeafDef[l].val)
   /\ qstack' = Append(qstack, LeafDef[l].val)
-  /\ flags'  = Append(flags, [s |-> LeafDef[l].sym, q |-> l \in QuantityLeaves, e |-> TRUE, lf |-> TRUE])
+  /\ flags'  = Append(flags, [s |-> LeafDef[l].sym, q |-> l \in QuantityLeaves, e |-> TRUE, lf |-> TRUE, nz |-> FALSE])
   /\ prog'   = Append(prog, l)
-  /\ UNCHANGED fdim
+  /\ UNCHANGED <<fdim, ao>>
 
 Apply(o) ==
   LET n == Arity(o) IN
@@ -188,6 +202,7 @@ Apply(o) ==
      /\ qstack' = Append(Pop(qstack, n), Sem(o, qs, FALSE))
      /\ flags'  = Append(Pop(flags, n), ResultFlags(o, xs, fl, Sem(o, xs, TRUE)))
      /\ fdim'   = (fdim \/ o = "gapp" \/ (o = "exp" /\ qs[1].c \in {"fin", "irr"} /\ ~Dimless(qs[1].d)))
+     /\ ao'     = (ao \/ (o = "pow" /\ AngleExponent(xs[2])))
   /\ prog' = Append(prog, o)
 
 Next == (\E l \in LeafNames : Push(l)) \/ (\E o \in OpNames : Apply(o))
@@ -217,5 +232,5 @@ ASSUME DerivLemma
 DimSeq(d) == <<d["L"], d["M"], d["T"], d["I"], d["K"], d["N"], d["J"], d["A"]>>
 Done == Len(stack) = 1 /\ Len(prog) >= 1
 Emit == Done => PrintT(ToJson([p |-> prog, c |-> stack[1].c, v |-> stack[1].v, d |-> DimSeq(stack[1].d),
-                               s |-> flags[1].s, q |-> qstack[1].c, f |-> fdim]))
+                               s |-> flags[1].s, q |-> qstack[1].c, f |-> fdim, ao |-> ao]))
 =============================================================================
